@@ -174,7 +174,85 @@ def compiled_order_is_configuration_order(ctx):
            "%d functions of the config layer reachable from compile / compileDropIn: no reordering algorithm, no front insertion; %d append sites" % (len(scope_), n_app))
 
 
+
+def action_chain_table(ctx):
+    """Ruleset::run_action_chain: one action per iteration, in configured order; CONTINUE goes on to the next action, STOP ends the chain,
+    ASYNC_PAUSED saves (plugin, context) and returns with nothing else run.  Shared by C02 and C06 (a resumed chain continues by this table)."""
+    P = ctx.prog
+    # ------------------------------------------------ Ruleset::run_action_chain
+    chain = ctx.fn1("Oomd::Engine::Ruleset::run_action_chain")
+    ls = loops(chain)
+    runs = virtual_run_calls(chain, prog=P)
+    ctx.count("virtual_run_sites", len(runs))
+    if len(ls) != 1 or len(runs) != 1:
+        ctx.violation("chain:single-loop", "anchor", chain.loc(),
+                      "run_action_chain has %d loops and %d run() sites (expected 1/1)" % (len(ls), len(runs)))
+    else:
+        L = ls[0]
+        ev = {runs[0]: [("set", "ran")]}
+        fi = iter_flow(ctx, chain, L, ev)
+        ctx.check(not fi.may(runs[0], "ran"), "chain:one-run-per-iteration", "at_most_once", chain.loc(runs[0]),
+                  "one action per iteration", "an action can run twice per iteration")
+        # iteration is forward over [start, end)
+        s = chain.nodes[L["stmt"]]
+        it = " ".join(chain.text(s[k]) for k in ("c", "inc") if k in s)
+        # the loop walks [first iterator parameter, second iterator parameter) upwards, whatever the parameters are called
+        itp = [p_["name"] for p_ in chain.params if "iterator" in (p_.get("type") or "") or "__normal_iterator" in (p_.get("type") or "")]
+        if len(itp) < 2 and len(chain.params) == 3:
+            itp = [p_["name"] for p_ in chain.params[:2]]       # the range is (first, last, context) whatever the iterator type is called
+        walkers = list(itp[:1])
+        if len(itp) >= 2 and isinstance(s.get("init"), int) and s["init"] >= 0 and chain.nodes[s["init"]]["k"] == "decl":
+            # `for (auto it = first; it != last; ++it)`: a local copy of the first iterator walks the range
+            for v_ in chain.nodes[s["init"]].get("vars", []):
+                if v_.get("init") is not None and v_.get("init", -1) >= 0 and chain.text(v_["init"]) == itp[0]:
+                    walkers.append(v_["name"])
+        fwd = len(itp) >= 2 and any(("++" + w_ in it or w_ + "++" in it) for w_ in walkers) and itp[1] in it and "--" not in it
+        ctx.check(fwd, "chain:forward-order", "loop-shape", chain.loc(L["stmt"]),
+                  "actions run in configured order from start to end", "loop header is: " + it)
+        cb = case_blocks(chain)
+        for nm in ("CONTINUE", "STOP", "ASYNC_PAUSED"):
+            if nm not in cb:
+                ctx.violation("chain:case:" + nm, "switch_table", chain.loc(), "no case %s" % nm)
+        sw = [i for i in chain.all("switch")]
+        if sw:
+            ctx.check(len(sw) == 1 and chain.nodes[sw[0]].get("allenum"), "chain:switch-exhaustive", "switch_table",
+                      chain.loc(sw[0]) if sw else chain.loc(), "switch covers every PluginRet",
+                      "switch over the action result is not exhaustive")
+        else:
+            # if / else-if chain: the three outcomes are tested (checked above); whatever is left falls out of the chain like today's
+            # switch without default does
+            ctx.ok("chain:switch-exhaustive", "switch_table", chain.loc(), "CONTINUE, STOP and ASYNC_PAUSED are each tested (if-chain form)")
+        if all(nm in cb for nm in ("CONTINUE", "STOP", "ASYNC_PAUSED")):
+            saves = field_writes(chain, "active_action_chain_state_")
+            evs = {runs[0]: [("set", "ran")]}
+            evs.update({w: [("set", "saved")] for w in saves})
+            # CONTINUE: next iteration, never leaves the function
+            fc = Flow(P, chain, events=evs, start=cb["CONTINUE"], cut=set(L["back_edges"]), cg=ctx.cg)
+            ex = [e for e in fc.exits() if e[0] in ("return", "fallthrough")]
+            reach_back = any(b in fc.OUT for b in back_sources(L))
+            ctx.check(not ex and reach_back, "chain:CONTINUE-next-action", "switch_table", chain.loc(),
+                      "CONTINUE proceeds to the next action", "CONTINUE can leave the chain")
+            # STOP: leaves the loop, runs nothing more
+            fs = Flow(P, chain, events=evs, start=cb["STOP"], cut=set(L["back_edges"]), cg=ctx.cg)
+            reach_back = any(b in fs.OUT for b in back_sources(L))
+            ex = [e for e in fs.exits() if e[0] in ("return", "fallthrough")]
+            ran_again = any(any("ran" in st.may for st in e[3].values()) for e in ex)
+            ctx.check(ex and not reach_back and not ran_again, "chain:STOP-ends-chain", "switch_table", chain.loc(),
+                      "STOP terminates the chain", "after STOP another action can run")
+            # ASYNC: save (plugin, context) then return, nothing runs
+            fa = Flow(P, chain, events=evs, start=cb["ASYNC_PAUSED"], cut=set(L["back_edges"]), cg=ctx.cg)
+            reach_back = any(b in fa.OUT for b in back_sources(L))
+            ex = [e for e in fa.exits()]
+            good = ex and not reach_back and all(
+                e[0] == "return" and all("saved" in st.must and "ran" not in st.may for st in e[3].values())
+                for e in ex)
+            ctx.check(good, "chain:ASYNC-suspends", "switch_table", chain.loc(),
+                      "ASYNC_PAUSED saves the chain state and returns",
+                      "ASYNC_PAUSED does not save-and-return on every path")
+
 def run(ctx):
+    from .C05 import pause_actions_writes_both
+    pause_actions_writes_both(ctx)
     compiled_order_is_configuration_order(ctx)
     engine_keeps_every_ruleset(ctx)
     from .C11 import instances_kept_only_if_ran
@@ -418,77 +496,7 @@ def run(ctx):
                       "runOnceImpl returns without running actions although a group fired outside the pause",
                       witness_path(impl, f4, node))
 
-    # ------------------------------------------------ Ruleset::run_action_chain
-    chain = ctx.fn1("Oomd::Engine::Ruleset::run_action_chain")
-    ls = loops(chain)
-    runs = virtual_run_calls(chain, prog=P)
-    ctx.count("virtual_run_sites", len(runs))
-    if len(ls) != 1 or len(runs) != 1:
-        ctx.violation("chain:single-loop", "anchor", chain.loc(),
-                      "run_action_chain has %d loops and %d run() sites (expected 1/1)" % (len(ls), len(runs)))
-    else:
-        L = ls[0]
-        ev = {runs[0]: [("set", "ran")]}
-        fi = iter_flow(ctx, chain, L, ev)
-        ctx.check(not fi.may(runs[0], "ran"), "chain:one-run-per-iteration", "at_most_once", chain.loc(runs[0]),
-                  "one action per iteration", "an action can run twice per iteration")
-        # iteration is forward over [start, end)
-        s = chain.nodes[L["stmt"]]
-        it = " ".join(chain.text(s[k]) for k in ("c", "inc") if k in s)
-        # the loop walks [first iterator parameter, second iterator parameter) upwards, whatever the parameters are called
-        itp = [p_["name"] for p_ in chain.params if "iterator" in (p_.get("type") or "") or "__normal_iterator" in (p_.get("type") or "")]
-        if len(itp) < 2 and len(chain.params) == 3:
-            itp = [p_["name"] for p_ in chain.params[:2]]       # the range is (first, last, context) whatever the iterator type is called
-        walkers = list(itp[:1])
-        if len(itp) >= 2 and isinstance(s.get("init"), int) and s["init"] >= 0 and chain.nodes[s["init"]]["k"] == "decl":
-            # `for (auto it = first; it != last; ++it)`: a local copy of the first iterator walks the range
-            for v_ in chain.nodes[s["init"]].get("vars", []):
-                if v_.get("init") is not None and v_.get("init", -1) >= 0 and chain.text(v_["init"]) == itp[0]:
-                    walkers.append(v_["name"])
-        fwd = len(itp) >= 2 and any(("++" + w_ in it or w_ + "++" in it) for w_ in walkers) and itp[1] in it and "--" not in it
-        ctx.check(fwd, "chain:forward-order", "loop-shape", chain.loc(L["stmt"]),
-                  "actions run in configured order from start to end", "loop header is: " + it)
-        cb = case_blocks(chain)
-        for nm in ("CONTINUE", "STOP", "ASYNC_PAUSED"):
-            if nm not in cb:
-                ctx.violation("chain:case:" + nm, "switch_table", chain.loc(), "no case %s" % nm)
-        sw = [i for i in chain.all("switch")]
-        if sw:
-            ctx.check(len(sw) == 1 and chain.nodes[sw[0]].get("allenum"), "chain:switch-exhaustive", "switch_table",
-                      chain.loc(sw[0]) if sw else chain.loc(), "switch covers every PluginRet",
-                      "switch over the action result is not exhaustive")
-        else:
-            # if / else-if chain: the three outcomes are tested (checked above); whatever is left falls out of the chain like today's
-            # switch without default does
-            ctx.ok("chain:switch-exhaustive", "switch_table", chain.loc(), "CONTINUE, STOP and ASYNC_PAUSED are each tested (if-chain form)")
-        if all(nm in cb for nm in ("CONTINUE", "STOP", "ASYNC_PAUSED")):
-            saves = field_writes(chain, "active_action_chain_state_")
-            evs = {runs[0]: [("set", "ran")]}
-            evs.update({w: [("set", "saved")] for w in saves})
-            # CONTINUE: next iteration, never leaves the function
-            fc = Flow(P, chain, events=evs, start=cb["CONTINUE"], cut=set(L["back_edges"]), cg=ctx.cg)
-            ex = [e for e in fc.exits() if e[0] in ("return", "fallthrough")]
-            reach_back = any(b in fc.OUT for b in back_sources(L))
-            ctx.check(not ex and reach_back, "chain:CONTINUE-next-action", "switch_table", chain.loc(),
-                      "CONTINUE proceeds to the next action", "CONTINUE can leave the chain")
-            # STOP: leaves the loop, runs nothing more
-            fs = Flow(P, chain, events=evs, start=cb["STOP"], cut=set(L["back_edges"]), cg=ctx.cg)
-            reach_back = any(b in fs.OUT for b in back_sources(L))
-            ex = [e for e in fs.exits() if e[0] in ("return", "fallthrough")]
-            ran_again = any(any("ran" in st.may for st in e[3].values()) for e in ex)
-            ctx.check(ex and not reach_back and not ran_again, "chain:STOP-ends-chain", "switch_table", chain.loc(),
-                      "STOP terminates the chain", "after STOP another action can run")
-            # ASYNC: save (plugin, context) then return, nothing runs
-            fa = Flow(P, chain, events=evs, start=cb["ASYNC_PAUSED"], cut=set(L["back_edges"]), cg=ctx.cg)
-            reach_back = any(b in fa.OUT for b in back_sources(L))
-            ex = [e for e in fa.exits()]
-            good = ex and not reach_back and all(
-                e[0] == "return" and all("saved" in st.must and "ran" not in st.may for st in e[3].values())
-                for e in ex)
-            ctx.check(good, "chain:ASYNC-suspends", "switch_table", chain.loc(),
-                      "ASYNC_PAUSED saves the chain state and returns",
-                      "ASYNC_PAUSED does not save-and-return on every path")
-
+    action_chain_table(ctx)
     engine_evaluation_order(ctx)
     from .C11 import instance_keeps_order
     instance_keeps_order(ctx)
